@@ -52,4 +52,3 @@ func Lambdas(seed int64, ngeneric int) []*big.Int {
 	}
 	return out
 }
-
